@@ -18,7 +18,10 @@ import SH.Model.Core
 
 namespace SH.Sampler
 
-inductive Variant | orig | fitKeep
+inductive Variant
+  | orig      -- the sampler as first pinned (before fixes/C05-sample-fit.diff)
+  | fitKeep   -- the sampler in /repo
+  | posIds    -- fitKeep with the seeded guard `ID > 0` in getGroupWeight/getNamespaceWeight (seeded/C06-r5-2), kept as a witness
   deriving DecidableEq, Repr
 
 inductive Mode | rand | det | quota
@@ -176,11 +179,17 @@ def sumSizes (l : List Item) : Int := (l.map (·.size)).sum
 
 def clamp1 (w : Int) : Int := if w < 1 then 1 else w
 
+/-- `p.metric.GroupID != 0` / `p.metric.NamespaceID != 0`: the weight of a group or namespace is looked up for EVERY id but 0 —
+    builtin groups and namespaces have negative ids (__default group -4, __builtin -2, __host -3, __default namespace -5) and
+    their weights are configurable like any other. (`Variant.posIds` is the seeded guard `> 0`.) -/
+def idHasWeight (cfg : Cfg) (id : Int) : Bool :=
+  if cfg.variant == .posIds then decide (0 < id) else id != 0
+
 def nsWeight (cfg : Cfg) (it : Item) : Int :=
-  clamp1 (if cfg.hasMeta && it.ns != 0 then it.wNsTab else 0)
+  clamp1 (if cfg.hasMeta && idHasWeight cfg it.ns then it.wNsTab else 0)
 
 def grpWeight (cfg : Cfg) (it : Item) : Int :=
-  clamp1 (if cfg.hasMeta && it.grp != 0 then it.wGrpTab else 0)
+  clamp1 (if cfg.hasMeta && idHasWeight cfg it.grp then it.wGrpTab else 0)
 
 inductive PartKind | byBudget | byNs | byGroup | byMetric | byKey
   deriving DecidableEq, Repr
@@ -306,7 +315,7 @@ def sfDenOf (g : Group) : Int := if g.budget < 1 then 1 else g.budget
 def whalePos (g : Group) : Nat := min g.items.length ((g.items.length : Int) * sfDenOf g / sfNumOf g / 2).toNat
 
 /-- fix C05-sample-fit: a group that fits its budget is not sampled -/
-def fitShortcut (cfg : Cfg) (g : Group) : Bool := cfg.variant == .fitKeep && sfNumOf g ≤ sfDenOf g
+def fitShortcut (cfg : Cfg) (g : Group) : Bool := cfg.variant != .orig && sfNumOf g ≤ sfDenOf g
 
 def sampleRows (cfg : Cfg) (g : Group) (ds : List Nat) : List Act × List Nat :=
   if g.items.isEmpty then ([], ds)
